@@ -134,6 +134,41 @@ impl DBFile {
     pub fn metadata(&self) -> io::Result<Metadata> {
         self.f.metadata()
     }
+
+    /// Creates (or empties) a file that goes through the OS cache, for side files whose records
+    /// are not block aligned.
+    pub(crate) fn create_buffered(path: impl AsRef<Path>) -> io::Result<Self> {
+        let f = FileSystem::options()
+            .create(true)
+            .truncate(true)
+            .read(true)
+            .write(true)
+            .bypass_cache(false)
+            .open(&path)?;
+
+        Ok(Self {
+            f,
+            p: path.as_ref().to_path_buf(),
+        })
+    }
+
+    /// Opens an existing file through the OS cache. See [`DBFile::create_buffered`].
+    pub(crate) fn open_buffered(path: impl AsRef<Path>) -> io::Result<Self> {
+        let f = FileSystem::options()
+            .read(true)
+            .write(true)
+            .bypass_cache(false)
+            .open(&path)?;
+        Ok(Self {
+            f,
+            p: path.as_ref().to_path_buf(),
+        })
+    }
+
+    /// Cuts (or extends) the file to `len` bytes.
+    pub(crate) fn set_len(&mut self, len: u64) -> io::Result<()> {
+        self.f.set_len(len)
+    }
 }
 
 impl Seek for DBFile {
